@@ -145,6 +145,13 @@ def _check(prop, tier, seed, replay, t0):
         red.append({'kind': 'extract', 'what': f'extractor failed: {type(e).__name__}: {e}', 'trace': traceback.format_exc()[-1500:]})
         fps = {}
     report['fingerprints'] = fps
+    try:
+        src_changed = extract.source_changed()
+    except Exception:
+        src_changed = []
+    # the library differs from the tree the model was written against: look harder (never a verdict)
+    escalate = 4 if (src_changed and tier == 'quick') else 1
+    report['source_changed'] = src_changed
 
     # 2. build: model + driver first (infrastructure), then the property's obligations ------------
     ok, out, secs = lean.lake_build(['gvdriver'])
@@ -219,7 +226,7 @@ def _check(prop, tier, seed, replay, t0):
             red.append({'kind': 'proof', 'what': 'leanchecker rejected the compiled modules', 'tail': lc_out[-500:]})
 
     # 4. correspondence ---------------------------------------------------------------------------
-    fams = P['families'][tier]
+    fams = [(m, f, n * escalate, sh) for (m, f, n, sh) in P['families'][tier]]
     corr = None
     if fams and os.path.exists(lean.DRIVER):
         corr = runner.run_families(fams, seed)
@@ -266,7 +273,8 @@ def _check(prop, tier, seed, replay, t0):
     ncases = P.get('oracle_cases', {}).get(tier, 16000 if tier == 'quick' else 800000)
     if red:
         ncases *= 4
-    budget = 90 if tier == 'quick' else 1500
+    ncases *= escalate
+    budget = (90 * (2 if escalate > 1 else 1)) if tier == 'quick' else 1500
     orc_res = run_oracle(prop, seed, budget, max_cases=ncases, extra_cases=extra_cases)
     report['steps']['oracle'] = {'evaluations': orc_res['evaluations'], 'nontrivial': orc_res['nontrivial'], 'violations': len(orc_res['violations']), 'budget_s': budget}
 
@@ -319,6 +327,8 @@ def _check(prop, tier, seed, replay, t0):
             'oracle': report['steps'].get('oracle'),
             'extra': report['steps'].get('extra'),
             'source_fingerprints': fps,
+            'source_changed': src_changed,
+            'escalation': escalate,
             'known_findings_live': sorted(known_hit),
             'partial': P.get('partial'),
         },
